@@ -242,6 +242,87 @@ def slow_cycle_game(rng):
     return finish(rewards, players, xtl, [win], {"family": "slow_cycle", "gamma": str(gam)})
 
 
+def layered_tie_game(rng):
+    """acyclic layered game rich in reachability TIES and reward DIFFERENCES: player states in
+    layers 0..1 (or 0..2) choose among 2-3 successors; the last layer consists of probabilistic
+    states [(q, win), (1-q, lose)] with q from a 3-element set (ties likely) and rewards 0..9
+    (reward ties unlikely).  Nested Player-2 states whose reachability-minimising and
+    reward-minimising actions differ occur often."""
+    depth = rng.choice([2, 3])
+    widths = [1] + [rng.randint(2, 3) for _ in range(depth - 1)] + [rng.randint(3, 4)]
+    idx, layers = 0, []
+    for w in widths:
+        layers.append(list(range(idx, idx + w)))
+        idx += w
+    lose, win = idx, idx + 1
+    players, xtl, rewards = [], [], []
+    for li, layer in enumerate(layers):
+        for s in layer:
+            if li == len(layers) - 1:
+                q = rng.choice([Fr(1, 2), Fr(1, 4), Fr(3, 4)])
+                players.append(PR)
+                rewards.append(rng.randint(0, 9))
+                xtl.append([(q, win), (1 - q, lose)])
+            else:
+                players.append(rng.choice([P1, P2, P2]))
+                rewards.append(rng.choice([0, 0, 1, 2]))
+                nxt = layers[li + 1]
+                k = rng.randint(2, min(3, len(nxt)))
+                tg = rng.sample(nxt, k)
+                xtl.append([(ACTIONS[j], t_) for j, t_ in enumerate(tg)])
+    players += [PR, PR]
+    rewards += [0, 0]
+    xtl += [[(Fr(1), lose)], [(Fr(1), win)]]
+    return finish(rewards, players, xtl, [win], {"family": "layered_tie"})
+
+
+def tiny_reach_game(rng):
+    """a Player-1 or probabilistic state with a normal live successor, a live successor whose reach
+    probability is positive but tiny (2^-20 .. 2^-50) and carries reward, and a dead successor"""
+    kind = rng.choice([P1, PR])
+    front = rng.choice([None, P1, P2, PR])
+    q = rng.choice([Fr(1, 2 ** 31), Fr(1, 2 ** 40), Fr(1, 2 ** 50), Fr(1, 2 ** 20)])
+    players, xtl, rewards = [], [], []
+    base = 0
+    if front is not None:
+        players.append(front)
+        rewards.append(0)
+        xtl.append([(Fr(1), 1)] if front == PR else [("go", 1)])
+        base = 1
+    S = base
+    a, b, c = S + 1, S + 2, S + 3
+    lose, win = S + 4, S + 5
+    order = [a, b, c]
+    rng.shuffle(order)
+    players.append(kind)
+    rewards.append(rng.choice([0, 1]))
+    if kind == PR:
+        xtl.append(list(zip(split_probs(rng, 3), order)))
+    else:
+        xtl.append([(ACTIONS[j], t_) for j, t_ in enumerate(order)])
+    players += [PR, PR, PR, PR, PR]
+    rewards += [rng.choice([0, 1]), rng.choice([2, 5]), rng.choice([0, 3]), 0, 0]
+    xtl += [[(Fr(1, 2), win), (Fr(1, 2), lose)], [(q, win), (1 - q, lose)], [(Fr(1), lose)],
+            [(Fr(1), lose)], [(Fr(1), win)]]
+    return finish(rewards, players, xtl, [win], {"family": "tiny_reach", "q": str(q)})
+
+
+def slow_reward_game(rng):
+    """rewarded retry loop with a continue-probability very close to 1: thousands of sweeps"""
+    gam = rng.choice([Fr(999, 1000), Fr(9995, 10000), Fr(9999, 10000)])
+    kind = rng.choice([P1, P2, PR])
+    players = [kind, PR, PR, PR]
+    rewards = [0, rng.choice([1, 4]), 0, 0]
+    xtl = [[(Fr(1), 1)] if kind == PR else [("a", 1)], [(gam, 1), (1 - gam, 3)], [(Fr(1), 2)], [(Fr(1), 3)]]
+    return finish(rewards, players, xtl, [3], {"family": "slow_reward", "gamma": str(gam)})
+
+
+def case_rename_map(g):
+    """injective renaming under which different actions differ ONLY in letter case"""
+    names = sorted({a for pl, row in zip(g["players"], g["transition_list"]) if pl != PR for a, _ in row})
+    return {a: ("mv%d" % (i // 2)) if i % 2 == 0 else ("MV%d" % (i // 2)) for i, a in enumerate(names)}
+
+
 def permute_game(g, perm, tperm_rng=None, rename=None):
     """Apply a state permutation (perm[old] = new, perm[0] == 0), optional per-state
     transition shuffles and an injective action renaming to a generated game."""
